@@ -71,7 +71,7 @@ def _shape_unit(n_parts, district):
             d = res.col("district")
             h.ensures("district_is_the_first_component_of_the_id", z3.Implies(rows, z3.And(d.t == parts[0], z3.Not(d.nan) if d.nan is not None else True)))
         h.ensures("category_unexpected", z3.Implies(rows, res.col("unit_category").t == z3.StringVal("unexpected")))
-        h.ensures("rows_are_feed_units_outside_the_baseline", z3.Implies(z3.And(*w.root.facts()), res.axis.present() == z3.And(w.inFeed(u), z3.Not(w.inData(u)))))
+        h.ensures("rows_are_feed_units_outside_the_baseline", z3.Implies(z3.And(*w.root.facts()), res.axis.present() == z3.And(w.inFeed(u), z3.Not(w.inData(u)))), replay=rp)
 
     return shape
 
